@@ -20,20 +20,25 @@ PROFILES = {
                   Acts='{"nop", "perr"}', MaxMulti=1, MaxConc=1),
     # wrapping plugins and their continuations (incl. pending jump returns)
     "wrap1": dict(MaxSeq=2, MaxRules=2, MaxMatch=0, MKinds='{"T"}', Negs='{FALSE}',
-                  Acts='{"nop", "wstop", "wcont", "wpost", "wtwice", "wconc", "jump", "return"}', MaxMulti=1, MaxConc=1),
+                  Acts='{"nop", "wstop", "wcont", "wpost", "wtwice", "wconc", "wkeep", "jump", "return"}', MaxMulti=1, MaxConc=1),
+    # continuations kept by a wrapper and run after the call returned (pending jump returns, errors, post-processing)
+    "keep": dict(MaxSeq=2, MaxRules=2, MaxMatch=0, MKinds='{"T"}', Negs='{FALSE}',
+                 Acts='{"nop", "wkeep", "wpost", "perr", "jump", "return"}', MaxMulti=2, MaxConc=1),
+    "keep3": dict(MaxSeq=3, MaxRules=2, MaxMatch=0, MKinds='{"T"}', Negs='{FALSE}',
+                  Acts='{"nop", "wkeep", "jump"}', MaxMulti=2, MaxConc=1),
     # nesting over three sequences
     "flow3": dict(MaxSeq=3, MaxRules=2, MaxMatch=0, MKinds='{"T"}', Negs='{FALSE}',
                   Acts='{"nop", "accept", "return", "jump", "goto"}', MaxMulti=1, MaxConc=1),
     # thorough only
     "wrap2": dict(MaxSeq=2, MaxRules=2, MaxMatch=0, MKinds='{"T"}', Negs='{FALSE}',
-                  Acts='{"nop", "wstop", "wcont", "wpost", "wtwice", "wconc", "jump", "return"}', MaxMulti=2, MaxConc=1),
+                  Acts='{"nop", "wstop", "wcont", "wpost", "wtwice", "wconc", "wkeep", "jump", "return"}', MaxMulti=2, MaxConc=1),
     "mixed": dict(MaxSeq=2, MaxRules=2, MaxMatch=1, MKinds='{"F", "E"}', Negs=BOTH,
                   Acts='{"set", "accept", "jump", "goto", "wtwice"}', MaxMulti=1, MaxConc=1),
     "resp": dict(MaxSeq=2, MaxRules=3, MaxMatch=0, MKinds='{"T"}', Negs='{FALSE}',
                  Acts='{"set", "drop", "reject", "wpost", "jump"}', MaxMulti=1, MaxConc=1),
     # sampled with -simulate: everything at the full bound of DESIGN §4 C06
     "big": dict(MaxSeq=3, MaxRules=3, MaxMatch=2, MKinds=ALLK, Negs=BOTH,
-                Acts='{"nop", "set", "drop", "perr", "wstop", "wcont", "wpost", "wtwice", "wconc", "accept", '
+                Acts='{"nop", "set", "drop", "perr", "wstop", "wcont", "wpost", "wtwice", "wconc", "wkeep", "accept", '
                      '"return", "reject", "jump", "goto"}', MaxMulti=2, MaxConc=1),
 }
 
@@ -45,6 +50,7 @@ NONVAC = [
     ("jump_not_advanced", "InOrder", 1, '{"nop", "jump"}'),
     ("k_consumed", "ContinuationReusable", 0, '{"nop", "wtwice"}'),
     ("join_one", "Quiescent", 0, '{"nop", "wconc"}'),
+    ("late_drops_return", "ContinuationReusable", 0, '{"nop", "jump", "wkeep"}'),
 ]
 
 
@@ -117,8 +123,10 @@ def run(ctx):
         "built-in actions are observed only through their effect on what runs next and on the response",
         "concurrent runs of a continuation use query copies (Context.Copy); per-copy logs are compared, the "
         "interleaving is free",
+        "a kept continuation is run later on the copy of the query taken when it was kept, after (and for some text variants "
+        "concurrently with) a second top-level run of the same sequences and an unrelated program's jumps",
     ]
-    profiles = ["flow", "match", "wrap1", "flow3"] + (["wrap2", "mixed", "resp"] if T else [])
+    profiles = ["flow", "match", "wrap1", "keep", "keep3", "flow3"] + (["wrap2", "mixed", "resp"] if T else [])
 
     # ---- leg A (+ leg B generator: the same exhaustive run exports every program with its expected logs;
     # the terminal state of a program does not depend on the interleaving of concurrent copies)
